@@ -8,6 +8,7 @@ import (
 	"go/token"
 	"go/types"
 	"os"
+	"path/filepath"
 	"sort"
 	"strings"
 	"time"
@@ -26,6 +27,9 @@ type Violation struct {
 	Model   *Model
 	Path    []int
 	PCSize  int
+	Choices map[string]uint64
+	Pkg     string
+	PkgDir  string
 }
 
 func (v *Violation) Sig() string { return v.Harness + "|" + v.Kind + "|" + v.Label }
@@ -39,42 +43,44 @@ type frame struct {
 }
 
 type Exec struct {
-	tf       *TF
-	eng      *Engine
-	prog     *ssa.Program
-	solver   *Solver
-	harness  string
-	pc       []*Term
-	facts    map[int]bool
-	prefix   []int
-	decs     []int
-	alts     [][]int
-	globals  map[*ssa.Global]Node
-	readMemo map[[2]int]*Term
-	labelSeq map[string]int
-	objCounter int
-	steps    int
-	depth    int
-	stack    []*ssa.Function
-	violations []*Violation
-	reached  map[string]bool
-	observed []string
-	inits    map[*ssa.Package]bool
-	concrete map[string]uint64 // concrete mode: values for nondeterministic primitives
-	concMode bool
-	unwind   int
-	accel    []string
-	intrUsed map[string]bool
-	funcsRun map[*ssa.Function]bool
+	tf           *TF
+	eng          *Engine
+	prog         *ssa.Program
+	solver       *Solver
+	harness      string
+	pc           []*Term
+	facts        map[int]bool
+	prefix       []int
+	decs         []int
+	alts         [][]int
+	globals      map[*ssa.Global]Node
+	readMemo     map[[2]int]*Term
+	labelSeq     map[string]int
+	objCounter   int
+	steps        int
+	depth        int
+	stack        []*ssa.Function
+	violations   []*Violation
+	reached      map[string]bool
+	observed     []string
+	inits        map[*ssa.Package]bool
+	concrete     map[string]uint64 // concrete mode: values for nondeterministic primitives
+	concMode     bool
+	unwind       int
+	accel        []string
+	intrUsed     map[string]bool
+	funcsRun     map[*ssa.Function]bool
 	assumedKnown map[string]bool
-	curPos   token.Pos
-	sentinels map[string]Value
-	pool     map[Node][]Value
-	timeSeq  int
-	harnessPkg *ssa.Package
-	bypass   map[*ssa.Function]bool
-	onceDone map[Node]bool
-	lastNow  *Term
+	curPos       token.Pos
+	sentinels    map[string]Value
+	pool         map[Node][]Value
+	timeSeq      int
+	harnessPkg   *ssa.Package
+	bypass       map[*ssa.Function]bool
+	onceDone     map[Node]bool
+	lastNow      *Term
+	choiceVals   map[string]uint64
+	harnessFn    *ssa.Function
 }
 
 func (ex *Exec) posStr(p token.Pos) string {
@@ -275,7 +281,7 @@ func (ex *Exec) require(cond *Term, kind, label, detail string) {
 		return
 	}
 	ex.violations = append(ex.violations, &Violation{Harness: ex.harness, Kind: kind, Label: label, Detail: detail,
-		Model: model, Path: append([]int{}, ex.decs...), PCSize: len(ex.pc)})
+		Model: model, Path: append([]int{}, ex.decs...), PCSize: len(ex.pc), Choices: ex.copyChoices(), Pkg: ex.harnessPkg.Pkg.Name(), PkgDir: ex.harnessDir()})
 	// continue under the assumption that the obligation holds, so later obligations are still examined
 	ex.assume(cond)
 }
@@ -347,7 +353,7 @@ func (ex *Exec) fail(kind, label, detail string) {
 	_, m := ex.solver.Check(ex.pc, ex.tf.True, true)
 	ex.eng.noteObligation(ex.harness+"|"+kind+"|"+label, Sat, "path")
 	ex.violations = append(ex.violations, &Violation{Harness: ex.harness, Kind: kind, Label: label, Detail: detail,
-		Model: m, Path: append([]int{}, ex.decs...), PCSize: len(ex.pc)})
+		Model: m, Path: append([]int{}, ex.decs...), PCSize: len(ex.pc), Choices: ex.copyChoices(), Pkg: ex.harnessPkg.Pkg.Name(), PkgDir: ex.harnessDir()})
 	panic(pathEnd{"failed: " + kind + " " + label})
 }
 
@@ -1752,4 +1758,16 @@ func sortedStrings(m map[string]bool) []string {
 	}
 	sort.Strings(s)
 	return s
+}
+
+func (ex *Exec) copyChoices() map[string]uint64 {
+	m := map[string]uint64{}
+	for k, v := range ex.choiceVals {
+		m[k] = v
+	}
+	return m
+}
+
+func (ex *Exec) harnessDir() string {
+	return filepath.Dir(ex.prog.Fset.Position(ex.harnessFn.Pos()).Filename)
 }
